@@ -38,6 +38,13 @@ Fixpoint sassign (k : N) (v : V) (m : smap) : smap :=
   | (k', v') :: r => if k =? k' then (k', v) :: r else (k', v') :: sassign k v r
   end.
 
+(* map::erase(k) *)
+Fixpoint serase (k : N) (m : smap) : smap :=
+  match m with
+  | [] => []
+  | (k', v) :: r => if k =? k' then r else (k', v) :: serase k r
+  end.
+
 (* m.empty() ? 0 : m.rbegin()->first *)
 Fixpoint slast (m : smap) : N :=
   match m with
